@@ -140,9 +140,6 @@ Proof.
 Qed.
 
 (* ------------------------------------------------------------------ corollaries of the spec *)
-Definition sets_status (o : op) : bool :=
-  match o with OStatus _ | ORedirect _ _ | ONoContent _ | OWriteHeader _ | OHTMLWith _ _ | OFormatted _ _ => true | _ => false end.
-
 Lemma spec_head_default ops : forall h, existsb sets_status ops = false -> fst (spec_head (200, h) ops) = 200.
 Proof.
   induction ops as [|o ops IH]; intros h H; cbn; [reflexivity|].
@@ -155,15 +152,6 @@ Proof. intros H. rewrite wire_is_spec_l. unfold spec; cbn. now apply spec_head_d
 
 (* status seen by the client = the last status set before the commit point, the committing
    call's own code counting *)
-Fixpoint last_status (d : Z) (ops : list op) : Z :=
-  match ops with
-  | [] => d
-  | OStatus c :: r => last_status c r
-  | _ :: r => last_status d r
-  end.
-Fixpoint first_commit (ops : list op) : option op :=
-  match ops with [] => None | o :: r => if commits o then Some o else first_commit r end.
-
 Lemma spec_head_status ops : forall s h,
   fst (spec_head (s, h) ops) =
   match first_commit ops with
@@ -198,6 +186,58 @@ Proof.
   - apply String.eqb_eq in E2; subst. now rewrite E.
   - destruct (String.eqb k k2); auto.
 Qed.
+
+(* a header set before the commit point reaches the client (possibly with a later value) *)
+Definition hmem (k : string) (h : hdrs) : Prop := hget k h <> [].
+Lemma hmem_hset_same k v h : hmem k (hset k v h).
+Proof. unfold hmem. rewrite hget_hset_same. discriminate. Qed.
+Lemma hmem_hset k k' v h : hmem k h -> hmem k (hset k' v h).
+Proof.
+  unfold hmem. destruct (String.eqb k k') eqn:E.
+  - apply String.eqb_eq in E; subst. rewrite hget_hset_same. discriminate.
+  - now rewrite hget_hset_other.
+Qed.
+Lemma hget_hadd_other k k' v h : String.eqb k k' = false -> hget k (hadd k' v h) = hget k h.
+Proof.
+  intros E. induction h as [|[k2 vs] r IH]; cbn; [now rewrite E|].
+  destruct (String.eqb k' k2) eqn:E2; cbn.
+  - apply String.eqb_eq in E2; subst. now rewrite E.
+  - destruct (String.eqb k k2); auto.
+Qed.
+Lemma hget_hadd_same k v h : hget k (hadd k v h) = (hget k h ++ [v])%list.
+Proof.
+  induction h as [|[k2 vs] r IH]; cbn; [now rewrite String.eqb_refl|].
+  destruct (String.eqb k k2) eqn:E; cbn; [now rewrite String.eqb_refl|now rewrite E].
+Qed.
+Lemma hmem_hadd k k' v h : hmem k h -> hmem k (hadd k' v h).
+Proof.
+  unfold hmem. destruct (String.eqb k k') eqn:E.
+  - apply String.eqb_eq in E; subst. rewrite hget_hadd_same. intros H C. apply app_eq_nil in C as [C _]. auto.
+  - now rewrite hget_hadd_other.
+Qed.
+Lemma hmem_pre_step k s h o : hmem k h -> hmem k (snd (pre_step (s, h) o)).
+Proof. destruct o; cbn; auto using hmem_hset, hmem_hadd. Qed.
+Lemma hmem_commit_step k s h o : hmem k h -> hmem k (snd (commit_step (s, h) o)).
+Proof. destruct o; cbn; auto using hmem_hset. Qed.
+Lemma spec_head_keeps k ops : forall s h, hmem k h -> hmem k (snd (spec_head (s, h) ops)).
+Proof.
+  induction ops as [|o ops IH]; intros s h H; cbn [spec_head]; [exact H|].
+  destruct (commits o); [now apply hmem_commit_step|].
+  destruct (pre_step (s, h) o) as [s1 h1] eqn:E. apply IH.
+  change h1 with (snd (s1, h1)). rewrite <- E. now apply hmem_pre_step.
+Qed.
+Lemma spec_head_has_header k v ops : forall s h, In (OHeader k v) (before_commit ops) ->
+  hmem (canon k) (snd (spec_head (s, h) ops)).
+Proof.
+  induction ops as [|o ops IH]; intros s h H; cbn in H; [contradiction|].
+  cbn [spec_head]. destruct (commits o) eqn:Hc; [contradiction|].
+  destruct H as [->|H].
+  - cbn [pre_step]. apply spec_head_keeps. apply hmem_hset_same.
+  - destruct (pre_step (s, h) o) as [s1 h1]. now apply IH.
+Qed.
+Lemma header_reaches_client_l ops k v : In (OHeader k v) (before_commit ops) ->
+  hget (canon k) (snd (fst (client (run ops)))) <> [].
+Proof. intros H. rewrite wire_is_spec_l. unfold spec; cbn [fst snd]. now apply (spec_head_has_header k v ops 200 []). Qed.
 
 (* ------------------------------------------------------------------ middlewares *)
 Lemma insert_perm e l : Permutation (e :: l) (insert_stable e l).
